@@ -95,6 +95,11 @@ impl BarAbs {
         let mut lit = String::new();
         while i < t.len() {
             match t[i] {
+                '{' if i + 1 < t.len() && (t[i + 1] == ' ' || t[i + 1] == '\t') => {
+                    // an opening brace followed by whitespace stands for itself
+                    lit.push('{');
+                    i += 1;
+                }
                 '{' => {
                     if !lit.is_empty() {
                         cur.push_str(&self.expand(&lit));
